@@ -23,6 +23,17 @@ from fractions import Fraction
 import z3
 
 CUR = None  # the current Path
+PROFILE = bool(os.environ.get('DFVERIF_PROFILE'))
+
+
+def _where():
+    f = sys._getframe(2)
+    while f is not None:
+        fn = f.f_code.co_filename
+        if '/dfols/' in fn or fn.endswith('step.py') or fn.endswith('state.py') or '/checks/' in fn:
+            return "%s:%d" % (os.path.basename(fn), f.f_lineno)
+        f = f.f_back
+    return '?'
 
 
 class PathAbort(BaseException):
@@ -268,6 +279,8 @@ class Path(object):
         if not t_ok and not f_ok:
             raise PathAbort('infeasible', 'path condition unsatisfiable')
         if t_ok and f_ok:
+            if PROFILE:
+                self.notes.append('fork@' + _where())
             first = self.cfg.true_first
             alt = list(self.trace) + [('d', not first, False)]
             self.pending.append(alt)
@@ -665,7 +678,7 @@ def _absorb(res, r, pending, keep_paths, on_result):
             ('T' if t[1] else 'F') if t[0] == 'd' else '[%s]' % t[1] for t in r['trace'])[:200],
             'obligations': [o['label'] + ':' + o['result'] for o in r['obls']][:12],
             'status': r['status']})
-    res.notes.extend(r['notes'][:5])
+    res.notes.extend(r['notes'][:5] if not PROFILE else r['notes'])
     res.events.extend(r.get('events', [])[:50] if len(res.events) < 500 else [])
     pending.extend(r['pending'])
     if keep_paths:
